@@ -265,9 +265,17 @@ impl Property for C12 {
         let kind = *src.pick(KINDS);
         // 10% of the histogram cases use 40 bounds 0.5, 1.0, ... 20.0 (the generated values 0.5 / 1 / 2 / 4 / 5 sit exactly on bounds)
         let wide = kind.is_hist() && src.chance(26);
-        let bounds: Vec<f64> = if wide { (1..=40).map(|k| k as f64 * 0.5).collect() } else { BOUNDS.to_vec() };
+        // (half of them: 111 bounds from -35.0 to 20.0, so that the same values land in buckets with an index beyond 64)
+        let very_wide = wide && src.chance(128);
+        let bounds: Vec<f64> = if very_wide {
+            (-70..=40).map(|k| k as f64 * 0.5).collect()
+        } else if wide {
+            (1..=40).map(|k| k as f64 * 0.5).collect()
+        } else {
+            BOUNDS.to_vec()
+        };
         if wide {
-            rep.class("wide-histogram(40 bounds)");
+            rep.class(if very_wide { "wide-histogram(111 bounds)" } else { "wide-histogram(40 bounds)" });
         }
         let shared = match kind {
             Kind::Counter => Shared::C(Counter::with_opts(Opts::new("c", "h")).unwrap()),
